@@ -119,7 +119,60 @@ def key_pairs(ctx: Ctx):
             continue
         if (ka == kb) != want_equal:
             bad.append({"kind": kind, "a": base, "b": other, "key_a": ka, "key_b": kb})
+    # ---- a sweep of short-lived functions of one name (closures over different constants): each is created, keyed and
+    # dropped before the next exists, so object addresses repeat; different calls must still get different keys, the same
+    # function built again the same key
+    def make_scale(k):
+        def scale(x):
+            return x * k
+
+        return scale
+
+    import gc
+
+    seen = {}
+    for rnd in range(2):
+        for k in range(25):
+            fn = make_scale(k)
+            key, _ = serialize_funct_h5(fn, fn_args=[10], fn_kwargs={}, resource_dict={})
+            del fn
+            gc.collect()
+            ctx.case({"pair": "sweep", "k": k, "round": rnd}, nontrivial=True)
+            ctx.count("pair.sweep")
+            if rnd == 0:
+                if key in seen.values():
+                    other_k = [kk for kk, vv in seen.items() if vv == key][0]
+                    bad.append({"kind": "sweep_collision", "a": {"closure_constant": other_k}, "b": {"closure_constant": k}, "key_a": key, "key_b": key})
+                seen[k] = key
+            elif seen.get(k) != key:
+                bad.append({"kind": "sweep_unstable", "a": {"closure_constant": k}, "b": {"closure_constant": k}, "key_a": seen.get(k), "key_b": key})
     return bad
+
+
+def resource_sensitivity(ctx: Ctx):
+    """Calls differing only in resources over one cache directory, on real executors (the key the executor computes, not
+    serialize_funct_h5 called by hand, is what decides)."""
+    import os
+
+    from .common import InfraError, finish_json_child, start_json_child
+
+    o = finish_json_child(start_json_child(["vh.cache_res_runner"]), 400)
+    if o is None:
+        raise InfraError("cache resource runner produced no output")
+    repo = os.environ.get("VERIF_REPO", "/repo")
+    if not os.path.realpath(o["pin"]).startswith(os.path.realpath(repo) + os.sep):
+        raise InfraError("cache resource runner imported executorlib from " + o["pin"])
+    bad = [c for c in o["cases"] if not c["ok"]]
+    for c in o["cases"]:
+        ctx.case({"cache_resources": c["case"]})
+        ctx.count("cache_resource_cases")
+    ctx.oblige("calls differing only in resources (per-call cwd, executor-level cwd, cores) over one cache directory each deliver "
+               "their own value", not bad, "%d cases" % len(o["cases"]))
+    if bad:
+        ctx.violation({"kind": "cache_resources", "failing_input": True},
+                      {"what": "a call received the stored result of a call with other resources (same function and arguments): the "
+                               "cache key the executor computes does not separate them (theorem different_calls_different_keys assumes it does)",
+                       "cases": bad[:4]})
 
 
 def body(ctx: Ctx):
@@ -199,12 +252,15 @@ def body(ctx: Ctx):
                            "theorems_no_longer_applicable": "ExecModel/Props/C08Cache.lean", "scenario": {k: v for k, v in s.items() if not k.startswith("_")},
                            "difference": j["diff"]}, no_input=True)
         extra["traces_validated_against_impl"] = validated
+    if replay is None or "cases" in replay:
+        resource_sensitivity(ctx)
     extra.update({
         "rule": "(a) byte strings assembled from '/ipykernel_', '/', newline, digits and other pieces against the regex; (b) call pairs "
                 "differing in exactly one of function body, function name, positional argument, keyword value, keyword name, resources, or "
                 "only the kernel id; (c) session histories (1-3 sessions, 1-6 calls from a pool of 2-4 distinct calls so that identical calls "
                 "recur, 1-3 workers, block and per-call, in one or two interpreter lifetimes, random delays after persistence operations) on "
-                "real executors with the h5py stand-in; non-trivial = contains the marker / any pair / any history",
+                "real executors with the h5py stand-in; (d) calls differing only in resources (per-call cwd, executor-level cwd, cores 1 / 2 / 3 "
+                "under the MPI stand-in) over one cache directory on real executors; non-trivial = contains the marker / any pair / any history",
         "ast_hashes": ast_hashes(ANCHORS),
         "trusted_base_extra": ["h5py stand-in (record file; a record is visible iff completely written), os.rename atomic, os.listdir",
                                "cloudpickle determinism and MD5 collision-freeness (hypotheses of the theorems, not axioms)"],
